@@ -323,6 +323,12 @@ def run(tier: str, seed: int) -> CheckResult:
         for script in (['arb', 'ok'], ['arb', 'arb', 'ok'], ['temp', 'arb', 'ok']):
             for cfg in (dict(errors=None, retries=None, timeout=None, backoff=0.0), dict(errors=None, retries=3, timeout=None, backoff=0.0)):
                 plain.append(build(carrier, cfg, script, delays=False, early_user=False, time_dev=False))
+    # the same laws on a ReplicaSet owned by a Deployment, where the records live under differently named annotations
+    for carrier in ('change', 'sub', 'parent'):
+        # (the parent's reference covers children that fail with temporary errors only)
+        for cfg, script in itertools.product(cfgs, (['temp', 'ok'], ['temp', 'temp', 'temp'], ['arb', 'temp', 'ok'], ['arb', 'perm']) if carrier != 'parent' else
+                                             (['temp', 'ok'], ['temp', 'temp', 'ok'], ['temp2~1', 'temp', 'ok'])):
+            plain.append(build(carrier, cfg, script, rs=True, delays=False, early_user=False, time_dev=False))
     if tier == 'quick':
         groups = [('policy-product', plain, 0, 80.0), ('crash-points', crash, 1, 40.0)]
     else:
